@@ -34,6 +34,8 @@ ASSUMPTIONS = [
     "the socket is replaced by _iobuf.write(chunk); process_io_buffer() as in every reactor's handle_read; reading stops once the connection closed itself",
     "messages are observed where Connection.process_msg is entered (subclass wrapper) and at recording decoders/callbacks registered in Connection._requests",
     "a sender puts only whole frames into self-contained segments and splits only frames larger than 131071 bytes (what the protocol text prescribes and Cassandra does)",
+    "with a flipped bit, 'delivered' means handed to process_msg while the connection is still alive, or received by a handler; frames of later segments of the same read that the already defunct connection still walks through reach no request handler (all were errored) and are only counted (class obs:frames-processed-after-checksum-failure)",
+    "promptness is not part of the statement: a complete message that stays in the frame buffer until a later read is only counted (class obs:complete-message-deferred-to-a-later-read)",
 ]
 LEVEL_TEXT = "generated search; exhaustive over all single-bit flips of the three stated small streams only"
 
@@ -191,9 +193,11 @@ def _flip_offset(flip, total, layout, compression):
 
 
 def _first_known_trigger(cuts, layout, compression, upto):
-    """Earliest cut position that reaches one of the two read-path defects recorded in
-    known_findings.json (see there); returns the feature name or None.  `upto`: only cuts before
-    this offset matter (the connection stops reading at a corrupted segment)."""
+    """Earliest cut position that reaches one of the two read-path defects this check found
+    (known_findings.json: C06.split-read/..., both repaired in /repo); returns the feature name or
+    None.  A failure on a case with such a cut is reported under that one key whatever the
+    symptom, i.e. it reads as a regression of that repair.  `upto`: only cuts before this offset
+    matter (the connection stops reading at a corrupted segment)."""
     best = None
     for seg in layout:
         s, he, pe, e = seg["start"], seg["header_end"], seg["payload_end"], seg["end"]
